@@ -638,3 +638,116 @@ def real_run(fn):
     finally:
         if saved:
             facade.install()
+
+
+class Dual:
+    """One scenario, two executions: symbolic (real code under the facade, conditions become SMT
+    obligations) and concrete replay (unpatched code on the solver's values, conditions evaluated)."""
+
+    def __init__(self, c=None, inputs=None):
+        self.c = c
+        self.sym = c is not None
+        self.inputs = inputs or {}
+        self.violated = {}
+        self.np = facade.FACADE if self.sym else np
+
+    def fl(self, name, lo=None, hi=None, nan=False):
+        if self.sym:
+            x = core.fresh_float(name, nan=nan)
+            if lo is not None:
+                self.c.assume(core.b_or(x.nan, x.r >= lo))
+            if hi is not None:
+                self.c.assume(core.b_or(x.nan, x.r <= hi))
+            rec(self.c, name, x)
+            return x
+        return float(self.inputs[name])
+
+    def integer(self, name, lo, hi):
+        if self.sym:
+            x = core.fresh_int(name, lo, hi)
+            rec(self.c, name, x)
+            return x
+        return int(self.inputs[name])
+
+    def choose(self, name, options):
+        if self.sym:
+            v = self.c.choose([(o, True) for o in options], name)
+            rec(self.c, name, v)
+            return v
+        return self.inputs[name]
+
+    def arr(self, rows, dtype=float, shape=None):
+        if self.sym:
+            o = arrays._to_obj(rows) if len(rows) else np.empty(0, dtype=object)
+            a = arrays.SymNd(o, dtype)
+        else:
+            a = np.array(rows, dtype=dtype) if len(rows) else np.empty(0, dtype=dtype)
+        return a.reshape(shape) if shape is not None else a
+
+    def zeros(self, shape):
+        return self.np.zeros(shape)
+
+    def prove(self, cond, label, info=None):
+        if self.sym:
+            self.c.prove(cond, label, info)
+        elif not bool(cond):
+            self.violated.setdefault(label, info)
+
+    def witness(self, cond, label):
+        if self.sym:
+            self.c.witness(cond, label)
+
+    def eq(self, a, b, tol=0.0):
+        if self.sym:
+            e = core.boolexpr(core.s_eq(a, b))
+            if core.is_floatish(a) and core.is_floatish(b):
+                e = core.b_or(e, core.b_and(core.boolexpr(core.s_isnan(a)), core.boolexpr(core.s_isnan(b))))
+            return e
+        try:
+            if a is None or b is None:
+                return a is None and b is None
+            fa, fb = float(a), float(b)
+            return (fa != fa and fb != fb) or abs(fa - fb) <= tol * max(1.0, abs(fa), abs(fb)) or fa == fb
+        except (TypeError, ValueError):
+            return a == b
+
+    def eq_arr(self, a, b, tol=0.0):
+        if self.sym:
+            ra, rb = arrays.raw(arrays.asnd(a)), arrays.raw(arrays.asnd(b))
+        else:
+            ra, rb = np.asarray(a), np.asarray(b)
+        if ra.shape != rb.shape:
+            return False
+        conds = [self.eq(x, y, tol) for x, y in zip(ra.reshape(-1), rb.reshape(-1))]
+        return core.b_and(*conds) if self.sym else all(conds)
+
+    def flat(self, a):
+        return list(arrays.raw(arrays.asnd(a)).reshape(-1)) if self.sym else list(np.asarray(a).reshape(-1))
+
+    def le(self, a, b):
+        return core.s_le(a, b) if self.sym else bool(a <= b)
+
+    def lt(self, a, b):
+        return core.s_lt(a, b) if self.sym else bool(a < b)
+
+
+def dual_harness(name, scenario, configs, units, **kw):
+    """Harness whose symbolic run and replay share one scenario(d: Dual, **params) function"""
+    def sym(c, **params):
+        scenario(Dual(c), **params)
+
+    def replay(inputs, label, **params):
+        tries = [inputs]
+        last = "not reproduced"
+        for inp in tries:
+            d = Dual(None, inp)
+            try:
+                scenario(d, **params)
+            except Exception as e:  # the scenario itself reports exceptions of the code under test as obligations
+                last = f"replay raised {e!r}"
+                continue
+            if label in d.violated:
+                shown = {k: v for k, v in inp.items() if not k.startswith("__")}
+                return True, f"{name}{params}: {label} {d.violated[label]} with inputs {shown}"
+        return False, last
+    return Harness(name, sym, replay, configs, units, **kw)
